@@ -168,6 +168,17 @@ def replay_case(args):
     exp_pos = [tuple(o["pos"]) for o in out]
     exp_leaves = [tuple(o["pos"]) for o in out if o["leaf"]]
     exp_ops = [tuple(o["pos"]) for o in out if (not o["leaf"]) and o["val"]["wk"]]
+    # (0) the child relation asked for as a user would, who then uses the returned list as his own (a stack-based traversal
+    # pops from it): the relation must be the documented one now and for everybody who asks later in this process
+    from toasty import pyramid as _pyr
+    for n_ in range(min(depth, 2) + 1):
+        for q_ in level(n_):
+            got_k = _pyr.pos_children(Pos(*q_))
+            if [tuple(k) for k in got_k] != kids(q_):
+                bad("V", "pos-children", "pos_children(%s) = %s, documented order %s" % (q_, [tuple(k) for k in got_k], kids(q_)))
+            if isinstance(got_k, list):
+                got_k.reverse()
+                del got_k[1:]
     sink = io.StringIO()
     with contextlib.redirect_stdout(sink):
         # (1) the iterator, with tokens: set_data(i) for the i-th item; child_data must be the tokens of the kids
